@@ -298,6 +298,7 @@ func runSeq(tr *vt.Trace, b beh, kind string) {
 		return cl[id]
 	}
 	pad := 0
+	cur := b.Cfg
 	settleKicks := func() {
 		// autokick runs in a detached goroutine: give it a moment, then let the kicked clients leave
 		time.Sleep(300 * time.Microsecond)
@@ -336,8 +337,28 @@ func runSeq(tr *vt.Trace, b beh, kind string) {
 			bs, _ := json.Marshal(op[1])
 			json.Unmarshal(bs, &c)
 			pad++
+			cur = c
 			writeGroup(name, c, pad)
 			emit(map[string]any{"ev": "edit", "cfg": cfgJSON(c)})
+		case "glitch":
+			// the definition file is unreadable for a moment (an editor saving it, a full disk): a join attempt and a reload
+			// happen meanwhile, then the same definition is back.  Nothing may have changed for the members.
+			// (An EMPTY group may be forgotten at any time, and its manual lock with it: only groups with members are glitched.)
+			if len(members(name)) == 0 {
+				break
+			}
+			os.WriteFile(filepath.Join(dir, name+".json"), []byte("{ this is not JSON"), 0600)
+			d := &fake{id: op[1].(string) + "x"}
+			cr := pw()
+			u := d.id
+			cr.Username = &u
+			if g, err := group.AddClient(name, d, cr); err == nil {
+				d.setGroup(g)
+				group.DelClient(d)
+			}
+			group.Update()
+			pad++
+			writeGroup(name, cur, pad)
 		}
 		settleKicks()
 	}
@@ -360,6 +381,10 @@ func randomSeq(r *rand.Rand) beh {
 			ops = append(ops, []any{"leave", ids[r.Intn(len(ids))]})
 		case 7:
 			ops = append(ops, []any{"lock", float64(r.Intn(2))})
+		case 9:
+			if r.Intn(2) == 0 {
+				ops = append(ops, []any{"glitch", ids[r.Intn(len(ids))]})
+			}
 		case 8:
 			nc := cfgT{Max: r.Intn(4), Autolock: r.Intn(2) == 0, Autokick: r.Intn(3) == 0, Window: []string{"open", "open", "before", "expired"}[r.Intn(4)]}
 			ops = append(ops, []any{"edit", cfgJSON(nc)})
